@@ -210,6 +210,7 @@ void yyfree(void *p) { free(p); }
 COUNTDOWN['r'] = COUNTDOWN['nr'].replace("yyalloc(yy_size_t n)", "yyalloc(yy_size_t n, yyscan_t s)").replace(
     "yyrealloc(void *q, yy_size_t n)", "yyrealloc(void *q, yy_size_t n, yyscan_t s)").replace("yyfree(void *p)", "yyfree(void *p, yyscan_t s)")
 COUNTDOWN['c99'] = COUNTDOWN['r'].replace("yy_size_t", "size_t")
+COUNTDOWN['cxx'] = COUNTDOWN['nr']
 ALLOC_MSGS = ["out of dynamic memory", "out of memory", "input buffer overflow", "scanner input buffer overflow", "bad buffer"]
 
 
@@ -454,9 +455,14 @@ def build_cases(rng, tier):
     for i in range(m):
         r = rng.fork("al%d" % i)
         be = r.weighted([('nr', 4), ('r', 3), ('c99', 2)])
+        if i % 5 == 3:
+            be = 'cxx'          # the C++ class: a failed request ends in LexerError (message on cerr, exit status 2)
         prog = rulesets.gen_program(r, trailing=False, max_scs=0, csize=256)
-        hs = [bufprog.gen_history(r.fork("h%d" % k), prog, r.pick([10, 25]), deep=(k == 1)) for k in range(2)]
-        cases.append({'id': "a%d" % i, 'kind': 'alloc', 'prog': prog, 'backend': be, 'flex_opts': list(r.pick(OPTS[:7])) + ["-8"],
+        hs = [bufprog.gen_history(r.fork("h%d" % k), prog, r.pick([10, 25]), deep=(k == 1), files_only=(be == 'cxx')) for k in range(2)]
+        fo = list(r.pick(OPTS[:7]))
+        if be == 'cxx':
+            fo = [o for o in fo if o not in ("-CF", "-B")] + ["-B"]
+        cases.append({'id': "a%d" % i, 'kind': 'alloc', 'prog': prog, 'backend': be, 'flex_opts': fo + ["-8"],
                       'lineno': r.chance(40), 'histories': hs, 'seed': r.s, 'text': '', 'maxk': 40 if tier == "quick" else 200,
                       'extra_options': ["noyyalloc", "noyyrealloc", "noyyfree"]})
     q = 30 if tier == "quick" else 600
